@@ -242,7 +242,7 @@ pub fn read_signed_vint(buffer: &[u8]) -> Result<Option<(i64, usize)>, ToolError
     let mut value = if is_negative {
         (buffer[0] as i64) | (!0i64 << (8 - length))
     } else {
-        (buffer[0] & (0xFF >> length)) as i64
+        (buffer[0] as u16 & (0xFFu16 >> length)) as i64
     };
 
     for item in buffer.iter().take(length).skip(1) {
